@@ -161,6 +161,7 @@ GKPairsMenu == << << <<2, 3, -50>>, <<2, 4, -30>>, <<3, 2, 25>> >>,
                   << <<2, 3, -80>>, <<3, 2, -10>>, <<6, 7, -9>>, <<6, 2, 14>> >>,
                   << <<2, 3, -60>>, <<2, 4, 40>>, <<3, 2, 30>>, <<4, 4, -100>>, <<5, 2, 1>> >>,
                   << <<0, 2, 33>>, <<2, 0, -33>>, <<9, 2, 12>> >>,
+                  << <<2, 3, 0>>, <<3, 2, 0>>, <<2, 4, -30>>, <<4, 4, 0>> >>,       \* zero is a value (override / minimum)
                   <<>> >>
 GKChars     == {65, 66, 67, 68, 102, 105, 90}
 GKSwMenuP   == << Sw(TRUE, <<>>), Sw(TRUE, <<>>), Sw(FALSE, <<"kern">>), Sw(FALSE, <<"cpsp", "kern">>) >>
